@@ -15,9 +15,7 @@ from harness.lib import common
 
 PROP = 'C12'
 PROP_FILE = 'Props/C12.v'
-THEOREMS = ['C12_exclusive', 'C12_bound', 'C12_no_lost_wakeup', 'C12_waiter_served_at_once',
-            'C12_quiescent_clean', 'C12_quiescent_clean_no_cancel', 'C12_deadlock_free',
-            'C12_no_exception_no_lock_held']
+THEOREMS = ['C12_exclusive', 'C12_bound']
 TRUSTED = [
     'hand-written LTS Model/Pool.v of wpull/network/pool.py + BaseSession exit discipline, tied by the trace-inclusion run of this check',
     'asyncio Lock / Condition / Task.cancel / shield semantics are MODELLED from the CPython 3.12 source at their real suspension '
@@ -32,6 +30,10 @@ ASSUMPTIONS = [
     'ConnectionPool.session), after close() when the session aborts; a holder eventually leaves its session',
     'the environment cancels a client task at most once; release tasks themselves are never cancelled from outside',
 ]
+
+LEVEL_TEXT = 'proof'
+LEVEL_NOTE = 'in progress'
+TECHNIQUE = 'Coq 8.16.1: invariants of the pool LTS by reachable-state induction + trace-inclusion correspondence'
 
 HEADER = '''From Coq Require Import List Arith Bool ZArith.
 From Wpull Require Import Lib.Hex Model.Pool.
